@@ -1,6 +1,8 @@
 /-
-C04 — Lean-checked counterexamples of the full statements (open known findings, known/C04.jsonl), and of the
-behaviour before the `fix:` commits where the old decision is kept in the model for reference.
+C04 — Lean-checked witnesses: why the repaired pieces are needed (the decision before the `fix:` commit, kept
+in the model for reference, or the machine run outside the repaired precondition), and the functional
+(not size-bound) consequences of the 16-bit size fields that stay open with C03.
+All four round-1 findings of C04 are repaired (KNOWN findings file: status fixed).
 -/
 import NV.C04.Props
 
@@ -8,33 +10,24 @@ namespace NV.C04
 
 open NV.Gen.C04
 
-/-- the full statement of eval_bounded: for every budget (a non-positive one allows nothing), every shape -/
-def EvalBounded_Full : Prop :=
-  ∀ (cfg : Cfg) (fuel : Nat) (sh : Sh), ((evaluate cfg fuel sh).2.ticks : Int) ≤ max cfg.maxCost 0
-
-/-- MaxEvaluationCost = 0: `if (!--eval_cost)` never fires, a 100 instruction loop completes -/
+/-- why the clamp (fix 7c5c9ea) is needed: run with an unclamped budget of 0, `if (!--eval_cost)` never fires and a
+    100 instruction loop completes -/
 theorem eval_unbounded_at_zero_budget :
     (evaluate { maxCost := 0, maxDepth := 20, stackSize := 100, handlerCatches := false } 1000 (.work 100)).1 = .ok ∧
-    (evaluate { maxCost := 0, maxDepth := 20, stackSize := 100, handlerCatches := false } 1000 (.work 100)).2.ticks = 102 := by
+    (evaluate { maxCost := 0, maxDepth := 20, stackSize := 100, handlerCatches := false } 1000 (.work 100)).2.ticks = 103 := by
   decide
 
-/-- an evaluation-cost error inside a safe apply is swallowed and the budget was refreshed: two safe applies use
-    two budgets -/
-theorem eval_unbounded_through_safe_apply :
+/-- the bound of eval_bounded is attained: two nested safe applies that each stop an eval-cost error add two ticks, and
+    the evaluation then ends with the error in the caller -/
+theorem eval_bound_attained_through_safe_apply :
     (evaluate { maxCost := 20, maxDepth := 20, stackSize := 100, handlerCatches := false } 1000
-      (.seq (.safe .spin) (.seq (.safe .spin) (.work 5)))).2.ticks = 45 := by
+      (.seq (.safe (.seq (.safe .spin) (.work 1))) (.work 1))).2.ticks = 22 ∧
+    (evaluate { maxCost := 20, maxDepth := 20, stackSize := 100, handlerCatches := false } 1000
+      (.seq (.safe (.seq (.safe .spin) (.work 1))) (.work 1))).1 = .raised .cost := by
   decide
 
-theorem not_EvalBounded_Full : ¬ EvalBounded_Full := by
-  intro h
-  have := h { maxCost := 20, maxDepth := 20, stackSize := 100, handlerCatches := false } 1000
-      (.seq (.safe .spin) (.seq (.safe .spin) (.work 5)))
-  rw [eval_unbounded_through_safe_apply] at this
-  simp only at this
-  omega
-
-/-- sprintf with MaxStringLength 200: 300 characters -/
-theorem sprintf_exceeds_small_limit : sprintfAdd 200 100 = .ok 300 := by decide
+/-- before fix 3738abb: sprintf's buffer alone allows 300 characters under MaxStringLength 200; the final test refuses it -/
+theorem sprintf_exceeds_small_limit : sprintfAdd 200 100 = .ok 300 ∧ sprintfFinish 300 200 = .err := by decide
 
 /-- MaxArraySize above 65535: allocate (65536) reports size 0 (16-bit `size` field) -/
 theorem array_size_wraps : allocateArray 65536 70000 = .ok 0 := by decide
@@ -43,7 +36,7 @@ theorem array_size_wraps : allocateArray 65536 70000 = .ok 0 := by decide
     is an unsigned int and the default MaxBufferSize is 4000000 -/
 theorem buffer_size_wraps : allocateBuffer 70000 4000000 = .ok 4464 := by decide
 
-/-- before the fix: repeat_string ("ab", INT64_MIN) passed the length guard with a product that wrapped to 0
+/-- before fix 70f8e01: repeat_string ("ab", INT64_MIN) passed the length guard with a product that wrapped to 0
     (1 byte allocated, 2^64 bytes to copy); after the fix the result is the empty string -/
 theorem repeat_string_old_wraps :
     repeatStringOld 2 (-9223372036854775808) 1000 = .ok 0 ∧ repeatString 2 (-9223372036854775808) 1000 = .ok 0 ∧
